@@ -26,6 +26,17 @@ def is_live(obj):
     return id(obj) in live_objects(e.state)
 
 
+def key_of(obj):
+    """(path, id) of a process object in the current hierarchy; the path makes
+    a moved step count as deleted under its old path and created under the
+    new one."""
+    e = CTX.get('engine') or CTX.get('constructing')
+    if e is None or not hasattr(e, 'state'):
+        return (None, id(obj))
+    ent = live_objects(e.state).get(id(obj))
+    return (ent[0] if ent else None, id(obj))
+
+
 def now():
     e = CTX.get('engine')
     return e.global_time if e is not None else 0
@@ -53,7 +64,7 @@ class Der(Step):
                       'y': {'_default': 0, '_updater': 'set'}}}
 
     def next_update(self, timestep, states):
-        LOG.append(('step', id(self), now(), CTX.get('phase', -1),
+        LOG.append(('step', key_of(self), now(), CTX.get('phase', -1),
                     is_live(self)))
         return {'s': {'y': states['s']['x'] + self.parameters['k']}}
 
@@ -65,7 +76,7 @@ class Der2(Step):
         return {'s': {'y': {'_default': 0}}}
 
     def next_update(self, timestep, states):
-        LOG.append(('step', id(self), now(), CTX.get('phase', -1),
+        LOG.append(('step', key_of(self), now(), CTX.get('phase', -1),
                     is_live(self)))
         return {}
 
@@ -120,18 +131,46 @@ class Actor(Process):
         return op
 
 
+class StepActor(Step):
+    """The same actor as a step: issues one operation per step phase (from
+    the first phase after construction on)."""
+
+    def __init__(self, parameters):
+        super().__init__(parameters)
+        self.i = 0
+
+    def ports_schema(self):
+        return {'loc1': {'*': copy.deepcopy(SUB)},
+                'loc2': {'*': copy.deepcopy(SUB)}}
+
+    def next_update(self, timestep, states):
+        ops = self.parameters['ops']
+        LOG.append(('step', key_of(self), now(), CTX.get('phase', -1),
+                    is_live(self)))
+        if CTX.get('engine') is None or self.i >= len(ops):
+            return {}
+        op = ops[self.i](states)
+        self.i += 1
+        LOG.append(('issue', CTX['issued'][-1] if op else None, now(),
+                    timestep))
+        return op
+
+
 class LoggedEngine(Engine):
     """The real Engine; run_steps is only bracketed to mark phases."""
 
     def run_steps(self):
         CTX['phase'] = CTX.get('phase', -1) + 1
+        CTX['constructing'] = self
         live = live_objects(self.state) if hasattr(self, 'state') else {}
         LOG.append(('phase_begin', CTX['phase'],
-                    {i for i, (p, o) in live.items() if o.is_step()}))
+                    {(p, i) for i, (p, o) in live.items() if o.is_step()}))
         try:
             super().run_steps()
         finally:
-            LOG.append(('phase_end', CTX['phase']))
+            live = live_objects(self.state) if hasattr(self, 'state') else {}
+            LOG.append(('phase_end', CTX['phase'],
+                        {(p, i) for i, (p, o) in live.items() if o.is_step()}))
 
 
 def live_objects(store):
@@ -247,14 +286,18 @@ def make_ops(ctx, kinds, ts_g, d, flavor, fresh_values=None):
 
 def build(ctx, kinds, flavor, ts_a, ts_g, d, emitter='null', parallel=None,
           engine_cls=LoggedEngine, extra_processes=None, extra_topology=None,
-          initial_state=None, actor_last=False):
+          initial_state=None, actor_last=False, issuer='process'):
     LOG.clear()
     CTX.clear()
     CREATED.clear()
     a = agent(ts_g, d, flavor)
     if parallel:
         parallel(a)
-    actor = Actor({'ts': ts_a, 'ops': make_ops(ctx, kinds, ts_g, d, flavor)})
+    ops = make_ops(ctx, kinds, ts_g, d, flavor)
+    if issuer != 'process':
+        return _build_step_issuer(a, ops, issuer, emitter, engine_cls,
+                                  initial_state)
+    actor = Actor({'ts': ts_a, 'ops': ops})
     if actor_last:
         # listed after the agents: in a batch the agents' updates are applied
         # before the actor's structural update
@@ -268,6 +311,33 @@ def build(ctx, kinds, flavor, ts_a, ts_g, d, emitter='null', parallel=None,
     if extra_processes:
         processes.update(extra_processes)
         topology.update(extra_topology)
+    init = {'loc2': {'b1': {'s': {'x': 5}}}}
+    if initial_state:
+        init.update(initial_state)
+    e = engine_cls(processes=processes, steps=steps, flow=flow,
+                   topology=topology, initial_state=init, display_info=False,
+                   emitter=emitter)
+    CTX['engine'] = e
+    CTX['actor'] = actor
+    CTX['first_agent'] = a
+    return e
+
+
+def _build_step_issuer(a, ops, issuer, emitter, engine_cls, initial_state):
+    """The structural updates are issued by a step during a step phase: a
+    legacy deriver (listed under processes, runs before all flow steps) or a
+    flow step without dependencies (first layer)."""
+    actor = StepActor({'ops': ops})
+    processes = {'loc1': {'a1': a['processes']}}
+    steps = {'loc1': {'a1': a['steps']}} if a['steps'] else {}
+    flow = {'loc1': {'a1': a['flow']}} if a['flow'] else {}
+    topology = {'actor': {'loc1': ('loc1',), 'loc2': ('loc2',)},
+                'loc1': {'a1': a['topology']}}
+    if issuer == 'deriver':
+        processes = {'actor': actor, 'loc1': {'a1': a['processes']}}
+    else:
+        steps = dict(steps, actor=actor)
+        flow = dict(flow, actor=[])
     init = {'loc2': {'b1': {'s': {'x': 5}}}}
     if initial_state:
         init.update(initial_state)
